@@ -534,6 +534,10 @@ template<class T> constexpr T spice(T*t) {return *t;}
 
 #define rBOILS_BEGIN rBOIL_BEGIN \
             const char *mm = msg; \
+            /*the index stands where the port name has its '#':*/ \
+            /*a digit of the name itself ("osc2vol#4") is not the index*/ \
+            for(const char *pn = data.port->name; \
+                *pn && *pn != '#' && *mm; ++pn) ++mm; \
             while(*mm && !isdigit(*mm)) ++mm; \
             unsigned idx = atoi(mm);
 
